@@ -419,13 +419,13 @@ func c05Chain(r *RunCtx, c int) error {
 		return err
 	}
 	defer e.Close()
-	sp := e.App.StorageKeeper.GetParams(e.Ctx)
+	sp := StorageParams(e)
 	sp.CheckWindow = PickOne(p, []int64{2, 2, 3, 5, 7})
 	sp.ProofWindow = PickOne(p, []int64{2, 3, 4})
 	if c%3 == 1 { // the usual relation: proofs are due more often than rewards are settled
 		sp.CheckWindow, sp.ProofWindow = 5, PickOne(p, []int64{2, 3})
 	}
-	e.App.StorageKeeper.SetParams(e.Ctx, sp)
+	GovSetStorageParams(e, sp)
 	users := []sdk.AccAddress{Acct(1), Acct(2), Acct(3)}
 	for _, u := range users {
 		_ = e.Fund(u, "ujkl", 4_000_000_000_000_000)
@@ -581,7 +581,7 @@ func c05Chain(r *RunCtx, c int) error {
 		// the state reached must satisfy the theorem's invariant, and the model must agree with the real
 		// reward block at the next reward height
 		st, nf, ng, desc := c05State(e, e.Ctx)
-		spNow := e.App.StorageKeeper.GetParams(e.Ctx)
+		spNow := StorageParams(e)
 		inv := fmt.Sprintf("InvCase {| b_s := %s; b_proof_window := %s; b_height := %s; b_now := %s |}", st, cZ(spNow.ProofWindow), cZ(e.Height), cZbig(c05Ns(e.Time)))
 		desc["trace_len"] = len(trace)
 		r.Case("chain", inv, desc)
@@ -609,9 +609,9 @@ func c05BusyChain(r *RunCtx) error {
 	cp := e.App.GetConsensusParams(e.Ctx)
 	cp.Block.MaxGas = 1_000_000
 	e.App.StoreConsensusParams(e.Ctx, cp)
-	sp := e.App.StorageKeeper.GetParams(e.Ctx)
+	sp := StorageParams(e)
 	sp.CheckWindow, sp.ProofWindow = 4, 3
-	e.App.StorageKeeper.SetParams(e.Ctx, sp)
+	GovSetStorageParams(e, sp)
 	users := []sdk.AccAddress{Acct(1), Acct(2), Acct(3)}
 	for _, u := range users {
 		_ = e.Fund(u, "ujkl", 4_000_000_000_000_000)
